@@ -33,6 +33,7 @@ type c12Case struct {
 	Shape    uint8    `json:"shape"` // how the bytes become files and patterns
 	Patterns []string `json:"patterns,omitempty"`
 	Label    string   `json:"label,omitempty"`
+	FileName string   `json:"file_name,omitempty"` // if set: Data is written under this (relative) name and the linked binary is run on it
 }
 
 func c12Flags(b uint8) sut.Flags {
@@ -178,6 +179,23 @@ var c12VersionLines = []string{
 	`"1.4.2-rc..1"`, `"1.4.2-01"`, `"１.4.2"`, `"1.4.2\n"`, `!!str 1`, `!!int "1"`, `true`, `0x1`, `1e3`, `"1e3"`, `.inf`,
 }
 
+// c12FileName runs the linked binary on one input file with a hostile name, given as a relative pattern.
+func c12FileName(t tb, c c12Case) bool {
+	col := ev.Get()
+	spec := Spec{Files: []File{{Name: c.FileName, Content: string(c.Data)}}, Flags: sut.Flags{Quiet: c.Flags&1 != 0, Spelling: int(c.Flags>>4) % 4}}
+	o := runBinary(spec, nil)
+	col.Case(ev.HashStr("file-name", c.FileName, fmt.Sprint(c.Flags), string(c.Data)), true)
+	col.Label("hostile-file-name")
+	bad := o.Res.TimedOut || o.Res.Exit < 0 || o.Res.Exit > 1 || strings.Contains(o.Res.Stderr, "panic:") || strings.Contains(o.Res.Stderr, "goroutine ")
+	exit, to, stderr := o.Res.Exit, o.Res.TimedOut, o.Res.Stderr
+	o.cleanup()
+	if bad {
+		violation(t, "panic", fmt.Sprintf("input file named %q: exit status %d, timed out %v: %s", c.FileName, exit, to, oneLine(stderr)), c)
+		return false
+	}
+	return true
+}
+
 func c12Run(c c12Case) (violationKey, what, reached string) {
 	c12Env()
 	if len(c.Data) > 64<<10 {
@@ -295,6 +313,10 @@ func c12Run(c c12Case) (violationKey, what, reached string) {
 
 func c12Eval(t tb, c c12Case) {
 	col := ev.Get()
+	if c.FileName != "" {
+		c12FileName(t, c)
+		return
+	}
 	key, what, reached := c12Run(c)
 	nontrivial := reached == "Compile" || reached == "Validate output" || reached == "Generate code"
 	col.Case(ev.HashStr(string(c.Data), fmt.Sprint(c.Flags, c.Shape, c.Patterns)), nontrivial)
@@ -540,6 +562,10 @@ func FuzzC12(f *testing.F) {
 
 func TestC12(t *testing.T) {
 	col := ev.Get()
+	// the linked binary is built before c12Env points the Go tooling at an empty module cache
+	if _, err := toolBinary(); err != nil {
+		t.Fatalf("INFRA: %v", err)
+	}
 	var rc c12Case
 	if replayPayload(t, &rc) {
 		c12Eval(t, rc)
@@ -661,6 +687,33 @@ func TestC12(t *testing.T) {
 		}
 		c12Eval(rt, c12Case{Data: []byte("parameters: {a: 1}\nservices:\n  s: {constructor: fx/lib.NewObj}\n"), Flags: uint8(rapid.IntRange(0, 15).Draw(rt, "flags")), Shape: 4, Patterns: ps, Label: "glob-patterns"})
 	})
+
+	// (e) hostile input file *names*, through the linked binary with relative patterns (the step table prints them)
+	{
+		valid := "parameters: {a: 1}\nservices:\n  s: {constructor: fx/lib.NewObj}\n"
+		names := []string{
+			"конфигурация-сервисов-приложения.yaml", "cfg/конфигурация-сервисов-приложения.yaml", "依存性注入コンテナの設定ファイル設定ファイル.yaml", "ρυθμίσεις-υπηρεσιών-εφαρμογής.yaml",
+			"é.yaml", strings.Repeat("é", 23) + ".yaml", strings.Repeat("é", 24) + ".yaml", strings.Repeat("é", 40) + ".yaml", strings.Repeat("é", 120) + ".yaml", strings.Repeat("😀", 12) + ".yaml",
+			strings.Repeat("a", 47) + ".yaml", strings.Repeat("a", 55) + ".yaml", strings.Repeat("a", 200) + ".yaml", strings.Repeat("d/", 30) + "a.yaml",
+			"with space.yaml", "a,b.yaml", `a"b.yaml`, "a'b.yaml", "a%b.yaml", "a%%b%.yaml", "-x.yaml", "--quiet.yaml", "a\nb.yaml", "a\tb.yaml", "a\\b.yaml", "a[1].yaml", "a{1}.yaml", "a*.yaml", "~a.yaml", "$HOME.yaml", ".hidden.yaml", "a.yaml.", "\u202ea.yaml",
+		}
+		for i, name := range names {
+			for fb := 0; fb < 4; fb++ {
+				idx++
+				if !ev.Mine(idx) {
+					continue
+				}
+				content := valid
+				if fb&2 != 0 {
+					content = "services: [1\n" // the same names on the failure path
+				}
+				if !c12FileName(t, c12Case{Data: []byte(content), Flags: uint8(fb&1) | uint8(i%4)<<4, FileName: name, Label: "file-name"}) {
+					return
+				}
+			}
+		}
+		col.Exhaustive(fmt.Sprintf("%d hostile input file names (multi-byte names around the column width of the step table, very long, separators, quotes, percent signs, option-like, glob metacharacters, control characters) x {valid, unparsable} x {verbose, quiet} through the linked binary", len(names)))
+	}
 
 	// (a) coverage-guided byte mutation (thorough tier, one shard drives all workers)
 	if ev.Thorough() && ev.ShardIndex() == 0 {
